@@ -24,6 +24,16 @@ impl C13 {
         let post = c.snap(false);
         let kind = op.kind();
         let ok = r.is_ok();
+        {
+            // the client-side helpers of packages/cw20 report the same minter, cap and supply
+            let via_m = c.via_helper(|t, q| t.minter(q)).map(|m| m.map(|m| (m.minter, m.cap.map(|c| c.u128()))));
+            let via_s = c.via_helper(|t, q| t.meta(q)).map(|i| i.total_supply.u128());
+            h.out.oracle_checks += 1;
+            if via_m != Some(post.minter.clone()) || via_s != Some(post.supply) {
+                h.violate("C13/query/package-helper-differs-from-queries", format!("Cw20Contract::minter {via_m:?} / meta.total_supply {via_s:?}, queries say {:?} / {}", post.minter, post.supply));
+                return false;
+            }
+        }
         let is_minter = m.minter.as_deref() == Some(sender);
         let is_former = m.former.iter().any(|f| f == sender) && !is_minter;
         let caller_class = if is_minter { 0 } else if is_former { 1 } else { 2 };
@@ -274,7 +284,7 @@ impl Monitor for C13 {
         for i in 0..n {
             if i == migrate_at {
                 // upgrade path: the token was deployed by an older release and is migrated now
-                let v = *h.rng.pick(&["0.13.4", "0.10.3", "0.13.0", "1.1.2", "2.0.0"]);
+                let v = *h.rng.pick(&["0.13.4", "0.9.1", "0.13.0", "0.2.3", "1.1.2", "2.0.0", "0.7.0", "0.10.3", "0.1.0", "0.14.0", "0.16.0"]);
                 cw2::set_contract_version(&mut c.w.store, "crates.io:cw20-base", v).unwrap();
                 let r = c.w.tx(|deps, env| cw20_base::contract::migrate(deps, env, cw20_base::msg::MigrateMsg {}));
                 h.out.evaluations += 1;
